@@ -406,16 +406,25 @@ def _finish(prop, prop_id, tier, verif_seed, reports, errors, t0, nworkers,
         exit_code = 1
     nh = sum(c for k, c in aborted.items()
              if str(k).startswith('harness'))
+    nothing_evaluated = False
     if exit_code == 0 and agg['cases'] and nh * 2 > agg['cases']:
+        nothing_evaluated = True
         # most runs could not be exercised: not a verdict
         errors = list(errors) + [
             f'{nh} of {agg["cases"]} cases ended with a harness problem: ' +
             ', '.join(sorted(str(k) for k in aborted
                              if str(k).startswith('harness')))[:300]]
+    if exit_code == 0 and agg['cases'] >= 50 and not ntkeys:
+        nothing_evaluated = True
+        # every oracle precondition failed (e.g. no golden run recognised):
+        # nothing was evaluated, which is not "held on everything explored"
+        errors = list(errors) + [
+            f'none of the {agg["cases"]} cases was non-trivial by the '
+            f'property\'s rule: the oracle evaluated nothing']
     if errors:
         for e in errors[:5]:
             lines.append('HARNESS-ERROR ' + e.replace('\n', '\n    '))
-        if exit_code == 0 and (agg['cases'] == 0
+        if exit_code == 0 and (agg['cases'] == 0 or nothing_evaluated
                                or len(errors) > max(3, agg['cases'] // 50)):
             exit_code = 2
     wall = time.time() - t0
